@@ -70,3 +70,21 @@ reg("C10", "C10", _c10, "exploration", {"quick": 2400, "thorough": 36000},
          "world signatures",
     reach=["c10.pairs_split_linear", "c10.pairs_split_nonlinear", "c10.pairs_dict_vs_nlc", "c10.pairs_regroup_linear",
            "c10.semantic_scale", "c10.semantic_fixed", "c10.semantic_scale+fixed"])
+
+
+def _c11(seed, idx, tier):
+    from . import conc
+    return conc.c11_case(seed, idx, tier)
+
+
+reg("C11", "C11", _c11, "exploration", {"quick": 360, "thorough": 6000},
+    rule="cases cycle through: (0) repetition A, B, A' in one process + argument snapshots on forced endings; (1) nested "
+         "minimize calls from the outer objective / callback; (2,3) threaded worlds: 2-16 clients with different "
+         "statements (30 % sharing Bounds / LinearConstraint / options objects), real threads released one at a time by a "
+         "seeded baton scheduler with pre-emption at every cobyqa source line and every peer call; strategies sequential, "
+         "seam-only, quanta, pct, location-uniform, write-set-guided; every client compared bit for bit with its "
+         "sequential baseline. evaluations counts minimize runs + threaded worlds; distinct = distinct world signatures "
+         "resp. (threads, strategy, #switches, switch locations)",
+    stubs=["objective function", "constraint functions", "callback", "sys.stdout (StringIO)",
+           "thread scheduling (seeded baton scheduler; real threading.Thread objects)"],
+    budget_s={"quick": 600, "thorough": 3300}, det_n=4, isolate=True)
